@@ -89,8 +89,24 @@ Fixpoint pow10_pos (p : positive) : Z :=
   end.
 Definition pow10 (e : Z) : Z := match e with Z0 => 1 | Zpos p => pow10_pos p | Zneg _ => 0 end.
 
-(* init(): bigPowersOfTen[i] = 10^i for i = 0..308 (PowerInteger of the integer-valued BigDec 10 is exact),
-   bigNegPowersOfTen[i] = One.Quo(10^i) for i = 0..36.  powTenBigDec indexes them; an index outside the slice panics.
+(* BigDec.PowerIntegerMut (osmomath/decimal.go), as written: square-and-multiply with rounded MulMut *)
+Fixpoint bd_power_loop (fuel : nat) (d tmp i : Z) : Z * Z :=
+  match fuel with
+  | O => (d, tmp)
+  | S f => if 1 <? i then
+             let tmp' := if Z.odd i then bd_mul_qr tmp d else tmp in
+             bd_power_loop f (bd_mul_qr d d) tmp' (Z.quot i 2)
+           else (d, tmp)
+  end.
+Definition bd_power_integer (d power : Z) : Z :=
+  if power =? 0 then P36 else if power =? 1 then d else if power =? 2 then bd_mul_qr d d else
+  let '(d', tmp) := bd_power_loop 64 d P36 power in bd_mul_qr d' tmp.
+
+(* init(): bigPowersOfTen[i] = osmomathBigTenDec.PowerInteger(i) for i = 0..308.  The table below holds the exact
+   powers 10^i; ProofsPrice.big_powers_as_written shows that PowerInteger, as written above, produces exactly these
+   values for every exponent the tick code can reach (0..76) - the products of integer-valued BigDecs are exact. 
+   
+   bigNegPowersOfTen[i] = One.Quo(10^i) for i = 0..36 (as written).  powTenBigDec indexes them; an index outside the slice panics.
    (The tables are closed constants: the kernel VM evaluates them once per evaluation.) *)
 Definition big_powers_of_ten : list Z := map (fun i => pow10 (Z.of_nat i) * P36) (seq 0 309).
 Definition big_neg_powers_of_ten : list Z := map (fun i => bd_quo P36 (pow10 (Z.of_nat i) * P36)) (seq 0 37).
